@@ -3601,7 +3601,7 @@ public:
     SBEPP_CPP20_CONSTEXPR void assign(InputIt first, InputIt last) const
     {
         auto begin = data_unchecked();
-        const auto new_end = std::copy(first, last, begin);
+        const auto new_end = copy_checked(first, last, begin);
         resize(new_end - begin, default_init);
     }
 
@@ -3667,7 +3667,9 @@ public:
     SBEPP_CPP20_CONSTEXPR void assign_range(R&& r) const
     {
         const auto begin = data_unchecked();
-#if SBEPP_HAS_RANGES
+#if SBEPP_SIZE_CHECKS_ENABLED
+        const auto new_end = copy_checked(std::begin(r), std::end(r), begin);
+#elif SBEPP_HAS_RANGES
         const auto new_end = std::ranges::copy(std::forward<R>(r), begin).out;
 #else
         const auto new_end = std::copy(std::begin(r), std::end(r), begin);
@@ -3676,6 +3678,29 @@ public:
     }
 
 private:
+    // The size of an input range is not known upfront, when size checks are
+    // enabled each written element is checked *before* it's written.
+    template<typename InputIt, typename Sentinel>
+    SBEPP_CPP20_CONSTEXPR pointer
+        copy_checked(InputIt first, Sentinel last, pointer out) const
+    {
+#if SBEPP_SIZE_CHECKS_ENABLED
+        const auto begin = out;
+        for(; first != last; ++first, ++out)
+        {
+            SBEPP_SIZE_CHECK(
+                (*this)(detail::addressof_tag{}),
+                (*this)(detail::end_ptr_tag{}),
+                0,
+                sizeof(size_type) + static_cast<std::size_t>(out - begin) + 1);
+            *out = *first;
+        }
+        return out;
+#else
+        return std::copy(first, last, out);
+#endif
+    }
+
     SBEPP_CPP14_CONSTEXPR pointer data_checked() const noexcept
     {
         SBEPP_SIZE_CHECK(
